@@ -526,6 +526,9 @@ def streams(ctx: lib.Ctx) -> None:
             tol = bool(re.search(TOLERATE.get(k, r"$^"), lit))
             if k == 7 and "??" in lit:
                 continue
+            if k == 7 and not re.fullmatch(
+                    r"L'(\\[^\n]{1,10}|[^\\'\n])'|static_cast<wchar_t>\(0x[0-9a-fA-F]+\)", lit):
+                tol = True   # multi-character / unprefixed constants: accepted by g++ with a warning
             lexval.append((k, lit, r[1] if r[0] == "ok" else None, tol))
     if model_ok:
         lc = [coq_pair(coq_nat(k), coq_cps(G.cps(lit)), coq_option(None if v is None else coq_cps(v)),
@@ -542,7 +545,8 @@ def streams(ctx: lib.Ctx) -> None:
 
     stage('lexer-validation')
     # ------------------------------------------------------------------ report property failures (shrunk)
-    for mode, items in failures.items():
+    order = ['cpp_w', 'go', 'cs', 'py_n', 'java', 'ts_t', 'cpp_s', 'ts_q', 'cpp_c']
+    for mode, items in sorted(failures.items(), key=lambda kv: (order.index(kv[0]) if kv[0] in order else 99, kv[0])):
         s, lit, why = min(items, key=lambda it: (len(it[0]), it[0]))
         s2, lit2, why2 = shrink(mode, s, lit, why)
         key = f"{mode}:{'-'.join('%x' % ord(c) for c in s2)}"
